@@ -266,6 +266,12 @@ impl super::BitVector for BitVector<'_> {
         if index == 0 && self.len() == 0 {
             return Some((false, 0));
         }
+        if index == self.len() {
+            // One past the last bit.  When the length is a multiple of the block size there is no
+            // block at index / stride, so answer from the last bit instead.
+            let (access, rank) = self.access_rank(index - 1)?;
+            return Some((false, rank + access as usize));
+        }
         // The offset into P.
         let stride = (self.words_per_block * 63) as usize;
         let p_offset = index / stride;
